@@ -65,6 +65,10 @@ PATHO = [b"", b"table", b"table T", b"table T {", b"table T { x", b"table T { x:
          b"table T { x:[[int]]; }", b"table T { x:[int:4]; }", b"struct S { x:[int:0]; }", b"struct S { x:string; }", b"struct S { x:[S:2]; }", b"union U { A, A } table A {}",
          b"table T { u:U; } union U { T } ", b"table " + b"T" * 5000 + b" { x:int; }", b"table T { " + b"".join(b"f%d:int;" % i for i in range(3000)) + b"}",
          b"table T { x:int = " + b"9" * 400 + b"; }", b"table T { x:float = 1e" + b"9" * 300 + b"; }", b"{" * 3000, b"(" * 3000, b"[" * 3000, b"table T { x:" + b"[" * 500 + b"int" + b"]" * 500 + b"; }",
+         b"table T { a:int (id:0); c:ubyte = 300 (id:1); c2:ubyte = 300 (id:2); d:int (id:3); }", b"table T { a:int (id:0); c:ubyte = 300 (id:1); d:int (id:2); }",
+         b"table T { c:ubyte = 300 (id:0); c2:byte = -200 (id:1); c3:short = 70000 (id:2); }", b"table T { a:int (id:3); b:Missing (id:1); c:Missing (id:2); d:int (id:0); }",
+         b"union U { T } table T { u:U (id:1); c:ubyte = 300 (id:2); c2:ubyte = 300 (id:3); e:int (id:4); }", b"table T { s:string = \"x\" (id:0); v:[int] = 1 (id:1); t:T = 0 (id:2); z:int (id:3); }",
+         b"namespace Aaaaaaaaaa.Bbbbbbbbbb.Cccccccccc.Dddddddddd.Eeeee; table T { x:Aaaaaaaaaa.Bbbbbbbbbb.Cccccccccc.Dddddddddd.Eeeee.Ffffffffffffffffffffffffffffffffffff; }",
          b"rpc_service S { M(T):T; } table T {}", b"rpc_service S { M(Missing):T; } table T {}",
          b"table T{a:int;} rpc_service S { m(int):T; }", b"table T{a:int;} rpc_service S { m(T):int; }", b"table T{a:int;} rpc_service S { m(string):T; }",
          b"table T{a:int;} rpc_service S { m(T):string; }", b"table T{a:int;} rpc_service S { m([T]):T; }", b"table T{a:int;} rpc_service S { m(T):[T]; }",
@@ -113,6 +117,17 @@ def run(ctx):
     for p in PATHO:
         lines.append(("patho", "compile 0 %s" % (p.hex() or "-")))
         lines.append(("patho", "compile %d %s" % (r.getrandbits(4), p.hex() or "-")))
+    # diagnostics that render a dotted name: unknown qualified references whose leading parts total every length around the display limits
+    for total in list(range(40, 70)) + [99, 100, 101, 127, 128, 129, 255, 256, 257]:
+        for nparts in (1, 2, 3):
+            cut = sorted(r.sample(range(1, total - 1), nparts - 1)) if nparts > 1 else []
+            parts, prev = [], 0
+            for c in cut + [total]:
+                parts.append("a" * max(1, c - prev - 1)); prev = c      # each part is followed by a dot
+            ref = ".".join(parts) + "." + "Zz" * r.choice([1, 4, 30])
+            for text in ("table T { x:%s; }" % ref, "struct S { x:%s; }" % ref, "union U { %s } table T { u:U; }" % ref,
+                         "table T { x:int; } root_type %s;" % ref, "enum E:int { A } table T { e:E = %s; }" % ref):
+                lines.append(("patho", "compile 0 %s" % text.encode().hex()))
     for _ in range(100 if quick else 3000):
         n = r.choice([1, 5, 40, 400])
         lines.append(("random", "compile 0 %s" % bytes(r.choice(b"tablestruc{}[]():;,=\"' \n0123456789.-_AZaz/\\*\xff") for _ in range(n)).hex()))
